@@ -263,4 +263,7 @@ def run(ck, tier):
     from .. import ownership as _own2
     ck.rule('R10', 'no unsound memoisation (a caching decorator on a method, or on a function that returns a mutable container) in the modules this property rests on')
     ck.guard(_own2.rule_no_unsafe_memo, ck, cx, 'R10', ('pymodbus.datastore.context', 'pymodbus.datastore.store'), 'a read returns a value cached before the latest write')
+    from .c01 import shared_layout_findings as _slf
+    ck.rule('R11', 'the write requests decode exactly the values their quantity field announces (shared with C01 R3): what execute() writes is what the frame carried')
+    _slf(ck, cx, 'R11', ['WriteMultipleCoilsRequest', 'WriteMultipleRegistersRequest', 'WriteSingleCoilRequest', 'WriteSingleRegisterRequest', 'MaskWriteRegisterRequest', 'ReadWriteMultipleRegistersRequest'], 'a write then changes other cells than the addressed ones, or answers normally for a request the spec refuses', rules=('R3',))
     return cx.idx
